@@ -214,6 +214,7 @@ struct MapStream : Family {
 				// interleaving at the stream seam: inside one of this read's callbacks another map (other tiles, other names) is read from
 				// memory to completion; both results must be right
 				box.sim->interleaveAtCall = 1 + mix64(plan.seed, 0x1e) % 9;
+				box.sim->interleaveBefore = (mix64(plan.seed, 0x1f) & 1) != 0;
 				box.sim->interleave = [&] {
 					Stream::MemoryReader r2(bytes2.data(), bytes2.size());
 					Map other = Map::ReadMap(r2);
@@ -412,6 +413,29 @@ struct MapDamage : Family {
 			for (uint64_t lg = 0; lg < 32; ++lg) { Line l = mkline("damage", "multi"); l.set("f1", "lgW").set("v1", hex64(lg)).set("f2", "H").set("v2", hex64((1ull << (32 - lg)) + (lg % 3))); variants.push_back(l); }
 			for (size_t gi = 0; gi < m.groups.size(); ++gi) for (const char* val : {"0x10000", "0x10001", "0xffffffff", "0x80000000"}) { Line l = mkline("damage", "multi"); l.set("f1", "g" + std::to_string(gi) + ".w").set("v1", val).set("f2", "g" + std::to_string(gi) + ".h").set("v2", val); variants.push_back(l); }
 		}
+		// Interleaving sweep on the VALID input: for every stream callback k of the read, once before and once after the bytes are
+		// delivered, a second valid input of the same kind is read to completion inside that callback. Both reads must come back right.
+		if (!valid2.empty() && valid.size() < (1u << 20)) {
+			uint64_t total = 0;
+			{ SimReader probe(valid); std::string pw; Out po = callLib(plan, [&] { Map pm = saved ? Map::ReadSavedGame(probe) : Map::ReadMap(probe); (void)pm; }, &pw); if (po == OkOut) total = probe.calls + 0; total = 0; for (auto& rec : probe.trace) if (rec.op == 'r' || rec.op == 'p') ++total; }
+			for (uint64_t k = 1; k <= total && k <= 80; ++k) for (int before = 0; before < 2; ++before) {
+				ctx.setVariant("damage none backend=sim"); // the interleaving point is a function of (k, before); a pinned replay repeats the whole sweep
+				SimReader rd(valid);
+				bool ran = false, ok2 = true;
+				rd.interleaveAtCall = k; rd.interleaveBefore = before != 0;
+				rd.interleave = [&] { Stream::MemoryReader r2(valid2.data(), valid2.size()); Map other = saved ? Map::ReadSavedGame(r2) : Map::ReadMap(r2); ok2 = compareMap(other, m, !saved).empty(); ran = true; };
+				Map first;
+				std::string iw;
+				Out io = callLib(plan, [&] { first = saved ? Map::ReadSavedGame(rd) : Map::ReadMap(rd); }, &iw);
+				const char* cl = saved ? "C07.saved-equals-map" : "C07.self-consistent";
+				std::string where = "with a second valid " + std::string(saved ? "saved game" : "map") + " read interleaved at stream callback " + std::to_string(k) + (before ? " (before delivery)" : " (after delivery)");
+				if (io != OkOut) ctx.fail(cl, "a valid input was refused " + where + ": " + iw);
+				if (!rd.interleaveError.empty() || (ran && !ok2)) ctx.fail(cl, "the interleaved read came back wrong or failed (" + rd.interleaveError + ") " + where);
+				std::string d1 = compareMap(first, m, !saved);
+				if (!d1.empty()) ctx.fail(cl, "the interrupted read came back wrong " + where + ": " + d1);
+				if (ran) ctx.count("probe.interleaving_points_enumerated");
+			}
+		}
 		std::unordered_set<uint64_t> seen;
 		size_t calls = 0;
 		// reference result for the saved-equals-map clause
@@ -435,6 +459,7 @@ struct MapDamage : Family {
 					// interleaving at the stream seam: another, valid input of the same kind is read to completion inside one of this read's
 					// callbacks (a scratch object shared between the two calls would be resized under the first one's feet)
 					b.sim->interleaveAtCall = 1 + mix64(plan.seed, vi) % 24;
+					b.sim->interleaveBefore = (mix64(plan.seed, vi + 99) & 1) != 0;
 					b.sim->interleave = [&] { Stream::MemoryReader r2(valid2.data(), valid2.size()); Map other = saved ? Map::ReadSavedGame(r2) : Map::ReadMap(r2); nestedOk = compareMap(other, m, !saved).empty(); nestedRan = true; };
 				}
 				map = saved ? Map::ReadSavedGame(*b.rd) : Map::ReadMap(*b.rd);
